@@ -26,4 +26,4 @@ Extraction "model.ml"
   rc_ni rc_infos4_dec rc_infos6_dec rc_gen rc_msg rc_addrs4_unb rc_addrs6_unb rc_infos4_unb rc_infos6_unb rc_hashes_unb rc_any_of_bytes
   RunLookups.rq_outcomes RunLookups.rq_accepts RunLookups.rq_mk_scn
   RunLookups.rl_init RunLookups.rl_event RunLookups.rl_finish RunLookups.rl_mk_cfg RunLookups.rl_mk_reply
-  RunLookups.rl_view_sends RunLookups.rl_view_peers RunLookups.rl_view_result RunLookups.rl_view_flags RunLookups.rl_view_nq RunLookups.rl_cfg_api.
+  RunLookups.rl_view_sends RunLookups.rl_view_peers RunLookups.rl_view_result RunLookups.rl_view_flags RunLookups.rl_view_nq RunLookups.rl_view_stopping RunLookups.rl_cfg_api.
